@@ -6,7 +6,7 @@ symbolically with the same evaluator as the code under verification. Only the Py
 supported by pyvc may be used here."""
 import base64
 import json
-from urllib.parse import parse_qs
+from urllib.parse import parse_qs, urlparse
 
 
 def recursive(**kw):
@@ -588,3 +588,16 @@ def jsonp_body(index, text):
     value `text` (json.dumps of a str is such a literal: assumed library fact L-JSON-JS)."""
     return '___eio[' + str(index) + '](' + json.dumps(text) + ');'
 
+
+
+# --- C08 / C09: clients ------------------------------------------------------------------------------
+
+def engineio_url(scheme_in, netloc, query, engineio_path, transport):
+    """The connection URL: http(s)/ws(s) by transport and security of the given scheme, the
+    caller's netloc and query string kept, the endpoint without surrounding slashes, the transport
+    and protocol version 4."""
+    scheme = 'http' if transport == 'polling' else 'ws'
+    if scheme_in == 'https' or scheme_in == 'wss':
+        scheme = scheme + 's'
+    return scheme + '://' + netloc + '/' + engineio_path.strip('/') + '/?' + query + \
+        ('&' if query else '') + 'transport=' + transport + '&EIO=4'
